@@ -43,8 +43,11 @@ BASE = {
     'trailers-server': [(b'x-trailer', b'v')],
     'push': [(b':method', b'GET'), (b':scheme', b'https'), (b':authority', b'example.com'),
              (b':path', b'/pushed')],
+    # RFC 8441 extended CONNECT
+    'connect': [(b':method', b'CONNECT'), (b':protocol', b'websocket'), (b':scheme', b'https'),
+                (b':path', b'/chat'), (b':authority', b'example.com'), (b'origin', b'x')],
 }
-KIND_OF = {'request': 'request', 'request-host': 'request', 'response': 'response',
+KIND_OF = {'connect': 'request', 'request': 'request', 'request-host': 'request', 'response': 'response',
            'informational': 'informational', 'trailers-client': 'trailers',
            'trailers-server': 'trailers', 'push': 'push'}
 
@@ -60,7 +63,7 @@ class EncoderRecorder:
 
 
 def _ctx(block, cfg):
-    if block in ('request', 'request-host'):
+    if block in ('request', 'request-host', 'connect'):
         ctx = ops.Ctx(True, cfg=cfg)
     elif block == 'trailers-client':
         ctx = ops.Ctx(True, cfg=cfg)
@@ -106,6 +109,12 @@ def build_input(block, variant, nlen, vlen, rep):
         npseudo = sum(1 for n, _v in BASE[block] if n.startswith(b':'))
         i = {'first': 0, 'after-pseudo': npseudo, 'last': len(base)}[pos]
         base.insert(i, (cells('name', nlen), cells('value', vlen)))
+    elif variant == 'order':
+        # the pseudo-header fields in any order (solver-chosen permutation)
+        import itertools
+        k = sum(1 for n, _v in BASE[block] if n.startswith(b':'))
+        perm = sym_choice('order', list(itertools.permutations(range(k))))
+        base = [base[i] for i in perm] + base[k:]
     elif variant == 'path':
         base = [(n, cells('path', vlen) if n in (b':path', u':path') else v) for n, v in base]
     elif variant == 'te':
@@ -290,8 +299,14 @@ def shards(tier, seed):
         for cfg in CFGS[1:]:
             add('request', cfg, 'bytes', 'extra', 7, 1)
             add('response', cfg, 'bytes', 'extra', 10, 1)
+        for block in ('request', 'push', 'connect'):
+            add(block, default, 'bytes', 'order', 0, 0)
+        add('connect', default, 'bytes', 'extra', 9, 1)
         return out
     nlens = [0, 1, 2, 3, 4, 5, 6, 7, 9, 10, 13, 16, 17, 19]
+    for block in ('request', 'push', 'connect'):
+        for rep in ('bytes', 'str'):
+            add(block, default, rep, 'order', 0, 0)
     for block in BASE:
         for cfg in CFGS:
             reps = ['bytes', 'str', 'HeaderTuple', 'NeverIndexed'] if cfg is default \
